@@ -185,3 +185,16 @@ PROG += [
      "class D:\n    def render(self, func):\n        return ' '.join(func(x) for x in self.items)\n"),
     (_fi(lambda P, f: iterreuse.findings(P, f)), "def f(cats, names):\n    cats_iter = iter(cats)\n    return [(c, p) for p in names for c in cats_iter]\n", "def f(cats, names):\n    cats_iter = iter(cats)\n    return [(c, p) for c in cats_iter for p in names]\n"),
 ]
+
+FN += [
+    (lints.splitext_never_equal, "import os\ndef f(names):\n    return [x for x in names if os.path.splitext(x)[1] in ('.bak', '~')]\n", "import os\ndef f(names):\n    return [x for x in names if x.endswith(('.bak', '~'))]\n"),
+]
+
+FN += [
+    (lints.publish_failure_as_status, "import os\ndef f(tmp, final, log):\n    try:\n        os.rename(tmp, final)\n    except OSError as e:\n        log.error(f'failed: {e}')\n        return False\n    return True\n",
+     "import os\ndef f(tmp, final, log):\n    try:\n        os.rename(tmp, final)\n    except OSError as e:\n        log.error(f'failed: {e}')\n        raise\n    return True\n"),
+]
+PROG += [
+    (_fi(lambda P, f: iterreuse.findings(P, f)), "import typing\ndef f(entry, keywords: typing.Iterable[str]):\n    new = replace(entry, keywords=tuple(keywords))\n    raw = ' '.join(keywords)\n    return new, raw\n",
+     "import typing\ndef f(entry, keywords: typing.Iterable[str]):\n    keywords = tuple(keywords)\n    new = replace(entry, keywords=keywords)\n    raw = ' '.join(keywords)\n    return new, raw\n"),
+]
